@@ -79,8 +79,8 @@ func (g *Gen) KnownPrograms(startPID, per int) []*ps.Program {
 			p.Wrap = false
 			add(p, "names", "names")
 		}
-		// aiorder: NEW finding — -auto-instrument skips tasks listed before
-		// cff.InstrumentFlow.
+		// aiorder: regression program of the repaired defect F11 (-auto-instrument skipped tasks
+		// listed before cff.InstrumentFlow).
 		{
 			p := g.flowWhere(pid, func(p *ps.Program) bool { return true })
 			if p.Emitters == 0 {
